@@ -276,13 +276,13 @@ class AsyncIOClient(ABC):
         await self._update_state(State.CLOSED)
         if self.writer:
             self.writer.close()
-        # Cancel the receive loop task if it exists
-        if self._receive_task and not self._receive_task.done():
-            self._receive_task.cancel()
-            await asyncio.sleep(0.01)  # Allow cancellation to propagate
-        # Cancel the process queue task if it exists
-        if self._process_queue_task and not self._process_queue_task.done():
-            self._process_queue_task.cancel()
+        # Cancel the receive loop task and the process queue task if they exist. Both are cancelled
+        # before the first await: close() may be running inside one of them (called from a status or
+        # receive callback) and is then cancelled itself at that await
+        pending = [task for task in (self._receive_task, self._process_queue_task) if task and not task.done()]
+        for task in pending:
+            task.cancel()
+        if pending:
             await asyncio.sleep(0.01)  # Allow cancellation to propagate
         self.logger.info("Connection closed.")
 
